@@ -252,4 +252,27 @@ func runC09(c *core.Case) {
 	if id.F < 0 {
 		c.Tag("id-negative-f")
 	}
+	// (d') a complete cover of mixed depth: some descendants replaced by their own complete sets of children, in
+	// shuffled order (fine ones may come before coarse ones): still merges to exactly the ID
+	if len(in) >= 2 && len(in) <= 64 && id.H+dh < 35 && id.V+dv < 35 {
+		var mixed []string
+		for _, e := range in {
+			if r.P(0.3) {
+				a, _ := ref.ParseExt(e)
+				for _, ch := range ref.ChangeOne(a, a.H+1, a.V+1) {
+					mixed = append(mixed, ch.Ext())
+				}
+			} else {
+				mixed = append(mixed, e)
+			}
+		}
+		mixed = shuffleStrings(r, mixed)
+		mm, err := integrate.MergeExtendedSpatialIds(mixed, id.H, id.V)
+		c.Call()
+		if err != nil || len(mm) != 1 || mm[0] != s {
+			c.Fail("merge-descendants-mixed-depth", nil, "merging a complete mixed-depth cover of %s (%d IDs, first %v) at its own zooms gives %v (err %v)", s, len(mixed), trunc(mixed, 6), trunc(mm, 8), err)
+			return
+		}
+		c.Tag("mixed-depth-cover")
+	}
 }
